@@ -1,0 +1,106 @@
+//! Verification hooks (only compiled with `--cfg hls_m3u8_verif`).
+//!
+//! String-level wrappers around crate-private helpers, so that an external
+//! harness can observe the tokenizer, the line classifier and the two
+//! crate-private fields of the data model. Nothing here changes behaviour.
+#![allow(missing_docs, clippy::missing_errors_doc, clippy::must_use_candidate)]
+
+use std::borrow::Cow;
+use std::time::Duration;
+
+use crate::line::{Line, Lines, Tag};
+use crate::tags;
+use crate::types::{DecryptionKey, PlaylistType, ProtocolVersion};
+use crate::MediaSegment;
+
+/// One item of the crate-private line iterator, with public payloads.
+#[derive(Debug, Clone, PartialEq)]
+pub enum HookLine<'a> {
+    Version(ProtocolVersion),
+    Inf(tags::ExtInf<'a>),
+    ByteRange(tags::ExtXByteRange),
+    Discontinuity,
+    Key(tags::ExtXKey<'a>),
+    Map(tags::ExtXMap<'a>),
+    ProgramDateTime(tags::ExtXProgramDateTime<'a>),
+    DateRange(tags::ExtXDateRange<'a>),
+    TargetDuration(Duration),
+    MediaSequence(usize),
+    DiscontinuitySequence(usize),
+    EndList,
+    PlaylistType(PlaylistType),
+    IFramesOnly,
+    Media(tags::ExtXMedia<'a>),
+    SessionData(tags::ExtXSessionData<'a>),
+    SessionKey(DecryptionKey<'a>),
+    IndependentSegments,
+    Start(tags::ExtXStart),
+    Variant(tags::VariantStream<'a>),
+    Unknown(&'a str),
+    Comment(&'a str),
+    Uri(&'a str),
+}
+
+fn convert(line: Line<'_>) -> HookLine<'_> {
+    match line {
+        Line::Comment(s) => HookLine::Comment(s),
+        Line::Uri(s) => HookLine::Uri(s),
+        Line::Tag(tag) => match tag {
+            Tag::ExtXVersion(t) => HookLine::Version(t.version()),
+            Tag::ExtInf(t) => HookLine::Inf(t),
+            Tag::ExtXByteRange(t) => HookLine::ByteRange(t),
+            Tag::ExtXDiscontinuity(_) => HookLine::Discontinuity,
+            Tag::ExtXKey(t) => HookLine::Key(t),
+            Tag::ExtXMap(t) => HookLine::Map(t),
+            Tag::ExtXProgramDateTime(t) => HookLine::ProgramDateTime(t),
+            Tag::ExtXDateRange(t) => HookLine::DateRange(t),
+            Tag::ExtXTargetDuration(t) => HookLine::TargetDuration(t.0),
+            Tag::ExtXMediaSequence(t) => HookLine::MediaSequence(t.0),
+            Tag::ExtXDiscontinuitySequence(t) => HookLine::DiscontinuitySequence(t.0),
+            Tag::ExtXEndList(_) => HookLine::EndList,
+            Tag::PlaylistType(t) => HookLine::PlaylistType(t),
+            Tag::ExtXIFramesOnly(_) => HookLine::IFramesOnly,
+            Tag::ExtXMedia(t) => HookLine::Media(t),
+            Tag::ExtXSessionData(t) => HookLine::SessionData(t),
+            Tag::ExtXSessionKey(t) => HookLine::SessionKey(t.0),
+            Tag::ExtXIndependentSegments(_) => HookLine::IndependentSegments,
+            Tag::ExtXStart(t) => HookLine::Start(t),
+            Tag::VariantStream(t) => HookLine::Variant(t),
+            Tag::Unknown(s) => HookLine::Unknown(s),
+        },
+    }
+}
+
+/// All items of `Lines::from(input)` (the iterator both playlist parsers
+/// consume after the `#EXTM3U` header has been stripped).
+pub fn lines(input: &str) -> Vec<Result<HookLine<'_>, crate::Error>> {
+    Lines::from(input).map(|r| r.map(convert)).collect()
+}
+
+/// All items of `AttributePairs::new(input)`.
+pub fn attribute_pairs(input: &str) -> Vec<(&str, &str)> {
+    crate::attribute::AttributePairs::new(input).collect()
+}
+
+pub fn unquote(input: &str) -> Cow<'_, str> {
+    crate::utils::unquote(input)
+}
+
+pub fn quote(input: &str) -> String {
+    crate::utils::quote(input)
+}
+
+pub fn strip_tag<'a>(input: &'a str, tag: &str) -> Result<&'a str, crate::Error> {
+    crate::utils::tag(input, tag)
+}
+
+/// The crate-private `keys` field of an `ExtXMap` (including the
+/// explicit-none marker, which `Decryptable::keys` filters out).
+pub fn map_keys<'a, 'b>(map: &'b tags::ExtXMap<'a>) -> &'b [tags::ExtXKey<'a>] {
+    &map.keys
+}
+
+/// The crate-private `explicit_number` field of a `MediaSegment`.
+pub fn segment_explicit_number(segment: &MediaSegment<'_>) -> bool {
+    segment.explicit_number
+}
